@@ -708,6 +708,7 @@ func runC06(c *Ctx) {
 
 	// ---------- R9 collected elements are distinct objects ----------
 	checkFreshElements(c, "R9")
+	checkBufferReinitialisers(c, "R10")
 
 	// ---------- R8 count guards refuse only what cannot fit ----------
 	checkCountGuards(c, "R8")
@@ -1443,4 +1444,45 @@ func checkFreshElements(c *Ctx, rule string) {
 		})
 	}
 	c.check(n >= 2, rule, "decoders that collect element pointers", "?", fmt.Sprintf("%d sites", n), fmt.Sprintf("only %d sites found", n))
+}
+
+// checkBufferReinitialisers (R10): the filexfer Buffer has a sticky error that makes every Consume* return zero.  A
+// method that gives the Buffer new contents and rewinds it (stores 0 into off, or assigns the whole struct) starts a
+// new decode, so it has to clear that error as well: Reset and StartPacket do (they assign a fresh Buffer); a method
+// that only replaces the bytes and the offset leaves a Buffer that once over-read unreadable, and a re-used
+// ExtendedReplyPacket decodes the next, well-formed reply to zero values.
+func checkBufferReinitialisers(c *Ctx, rule string) {
+	p := c.P
+	n := 0
+	for _, fn := range p.LibFuncs() {
+		if fn.Package() != p.Sshfx || fn.Signature.Recv() == nil || typeName(fn.Signature.Recv().Type()) != "Buffer" {
+			continue
+		}
+		rewinds, clears, whole := false, false, false
+		eachInstr(fn, func(in ssa.Instruction) {
+			st, ok := in.(*ssa.Store)
+			if !ok {
+				return
+			}
+			if _, name, base, ok := fieldOf(st.Addr); ok && len(fn.Params) > 0 && base == fn.Params[0] {
+				if k, isK := constInt(st.Val); name == "off" && isK && k == 0 {
+					rewinds = true
+				}
+				if name == "Err" && isNilConst(st.Val) {
+					clears = true
+				}
+				return
+			}
+			if len(fn.Params) > 0 && st.Addr == fn.Params[0] {
+				whole = true
+			}
+		})
+		if !rewinds && !whole {
+			continue
+		}
+		n++
+		c.check(whole || clears, rule, fnName(fn)+" clears the sticky error when it rewinds the Buffer", p.Pos(fn.Pos()), "new contents, offset 0, no error",
+			fnName(fn)+" gives the Buffer new contents and offset 0 but keeps Err: after one over-read every later decode through this Buffer yields zero values and ErrShortPacket, whatever bytes it was given")
+	}
+	c.check(n >= 3, rule, "methods that rewind a Buffer", "?", fmt.Sprintf("%d methods", n), fmt.Sprintf("only %d found (Reset, StartPacket, UnmarshalBinary expected)", n))
 }
